@@ -8,6 +8,7 @@ CONSTANTS
   MaxB = 3
   MaxF = 2
   Wide = FALSE
+  QVariants = 4
 INVARIANTS TypeOK Conservation Complete BatchShape IdCarried ColsOK PositionIndependent OrderEquivariant OwnIndex FilterIsSelection ChainCommutes
 PROPERTIES Terminates
 CONSTRAINT Emit
